@@ -989,7 +989,269 @@ class LargeKind(Kind):
                 yield dict(case, runs=rest, n=n, splits=[n])
 
 
-KINDS = [HistKind(), EdgesKind(), LargeKind()]
+# ---------------------------------------------------------------------------------------------------------------------
+# configuration histories: a refused assignment of bin_edges must leave the object as it was
+REFUSAL_FAMILIES = ['widening', 'narrowing', 'compensating', 'unsorted', 'tooshort', 'nan', 'badtype']
+
+
+def refused_edges(rng, fam, length):
+    """An edge list of the given length (when the family allows it) that the setter must refuse."""
+    if fam == 'tooshort':
+        return rng.choice([[], [float(rng.randint(-3, 3))]])
+    length = max(length, 3 if fam != 'compensating' else 4)
+    w = rng.choice([1.0, 0.5, 2.0])
+    widths = [w] * (length - 1)
+    if fam == 'widening':
+        widths = [w * (1 + i) for i in range(length - 1)]
+    elif fam == 'narrowing':
+        widths = [w * (length - i) for i in range(length - 1)]
+    elif fam == 'compensating':
+        widths[rng.randrange(1, length - 2)] += w
+    e = [float(rng.randint(-2, 2))]
+    for x in widths:
+        e.append(e[-1] + x)
+    if fam == 'unsorted':
+        i = rng.randrange(length - 1)
+        if rng.random() < 0.5:
+            e[i], e[i + 1] = e[i + 1], e[i]
+        else:
+            e[i + 1] = e[i]
+    if fam == 'nan':
+        e[rng.randrange(length)] = float('nan')
+    return e
+
+
+class HistoryKind(Kind):
+    name = 'mia_history'
+    header = HDR
+    case_type = 'mia_history_case'
+    check_fn = 'mia_history_check'
+    explain_fn = 'mia_history_expected'
+    shard = 6
+    rule = ('histories on ONE MIADistinguisher / MIAAttack object: construction with edges or with bins_number only, accepted '
+            're-assignments of bin_edges before the first update (the last one wins), REFUSED assignments (widening, narrowing, '
+            'compensating, unsorted/repeated, too short, NaN, wrong type; shorter / as long / longer than the configured list), each '
+            'caught, before the first update, between updates and before compute; then accumulators, results, bin_edges and '
+            'bins_number must be those of the history without the refused assignments; non-trivial = at least one refused assignment '
+            'and two populated bins and classes')
+
+    def gen(self, rng, tier):
+        thorough = tier != 'quick'
+        for rep in range(4 if thorough else 1):
+            for i, fam in enumerate(REFUSAL_FAMILIES):
+                yield self._case(rng, [fam], auto=False, mode='dist', everywhere=True)
+                yield self._case(rng, [fam], auto=True, mode='dist', everywhere=True)
+            for i in range(4):
+                yield self._case(rng, rng.sample(REFUSAL_FAMILIES, 2), auto=(i % 2 == 1), mode='attack', everywhere=False)
+            for i in range(6 if not thorough else 20):
+                yield self._case(rng, rng.sample(REFUSAL_FAMILIES, rng.randint(1, 3)), auto=rng.random() < 0.4, mode='dist', everywhere=False)
+
+    def _case(self, rng, fams, auto, mode, everywhere):
+        nb = rng.randint(2, 8)
+        width = rng.choice([1, 2, 0.5])
+        edges = uniform_edges(0, width, nb)
+        W = rng.randint(1, 2)
+        S = rng.randint(1, 3)
+        parts = list(range(rng.choice([3, 4]))) if mode == 'dist' else list(range(rng.choice([4, 8])))
+        nup = rng.randint(1, 3)
+        tdtype = rng.choice(['float64', 'int16']) if auto else rng.choice(['float64', 'float32', 'int16'])
+        ops = []
+
+        def refusals(k):
+            out = []
+            for _ in range(k):
+                fam = rng.choice(fams)
+                if fam == 'badtype':
+                    out.append(['badtype', rng.choice(['tuple', 'none', 'str', 'int'])])
+                else:
+                    length = nb + 1 + rng.choice([-2, -1, 0, 1, 3])
+                    out.append(['set', refused_edges(rng, fam, length), rng.choice(['list', 'ndarray']) if fam != 'tooshort' else 'list'])
+            return out
+        # before the first update: accepted re-assignments (the last one wins) mixed with refused ones
+        n_acc = rng.choice([0, 0, 1, 2]) if not auto else rng.choice([0, 0, 0, 1])
+        final = None if auto else edges
+        pre = refusals(1 if everywhere else rng.choice([0, 1, 2]))
+        for _ in range(n_acc):
+            nb2 = rng.randint(2, 8)
+            final = uniform_edges(rng.choice([0, -1]), rng.choice([1, 0.5, 2]), nb2)
+            pre.insert(rng.randint(0, len(pre)), ['set', final, rng.choice(['list', 'ndarray'])])
+        if everywhere or rng.random() < 0.5:
+            pre += refusals(1)                       # the LAST assignment before the first update is a refused one
+        ops += pre
+        span = final if final is not None else edges
+        lo, hi, wd = span[0], span[-1], span[1] - span[0]
+        for u in range(nup):
+            n = rng.randint(4, 14)
+            tr = []
+            for _ in range(n):
+                row = []
+                for _ in range(S):
+                    x = rng.choice(span + [lo - wd, hi + wd]) if rng.random() < 0.4 else lo + rng.random() * (hi - lo)
+                    x = float(np.dtype(tdtype).type(x)) if tdtype != 'int16' else int(round(x))
+                    row.append(x)
+                tr.append(row)
+            if u == 0 and final is None:             # automatic edges: the first batch spans a non-empty window
+                tr[0][0], tr[1][0] = (0, 6) if tdtype == 'int16' else (0.0, 6.0)
+            da = [[rng.randrange(len(parts) + 1) for _ in range(W)] for _ in range(n)] if mode == 'dist' else \
+                 [[rng.randrange(8) for _ in range(W)] for _ in range(n)]
+            ops.append(['update', tr, da])
+            if u < nup - 1 and (everywhere or rng.random() < 0.5):
+                ops += refusals(1)
+        if everywhere or rng.random() < 0.6:
+            ops += refusals(1)                       # between the last update and compute
+        return {'mode': mode, 'init_edges': [] if auto else edges, 'bins_number': rng.choice([2, 3, 5, 8]) if auto else 128,
+                'parts': parts, 'precision': rng.choice(['uint32', 'float64']), 'tdtype': tdtype, 'ops': ops,
+                'guesses': 2 if mode == 'attack' else 0, 'families': sorted(fams)}
+
+    @staticmethod
+    def _bad_obj(name):
+        return {'tuple': (0.0, 1.0, 2.0), 'none': None, 'str': '012', 'int': 3}[name]
+
+    def run(self, case):
+        return WORKER.call(self.name, case)
+
+    def run_impl(self, case):
+        import scared
+        kw = {'bin_edges': list(case['init_edges'])} if case['init_edges'] else {'bins_number': case['bins_number']}
+        with warnings.catch_warnings():
+            warnings.simplefilter('ignore')
+            if case['mode'] == 'dist':
+                d = scared.MIADistinguisher(partitions=list(case['parts']), precision=case['precision'], **kw)
+            else:
+                import estraces
+                G = case['guesses']
+
+                @scared.attack_selection_function(guesses=range(G))
+                def sf(plaintext, guesses):
+                    out = np.empty((plaintext.shape[0], len(guesses), plaintext.shape[1]), dtype='uint8')
+                    for g in guesses:
+                        out[:, g, :] = (plaintext ^ g) & 7
+                    return out
+                d = scared.MIAAttack(selection_function=sf, model=scared.Value(), discriminant=scared.maxabs,
+                                     partitions=list(case['parts']), precision=case['precision'], **kw)
+            refused, excs = [], []
+            for op in case['ops']:
+                if op[0] == 'update':
+                    tr = np.array(op[1], dtype=case['tdtype'])
+                    if case['mode'] == 'dist':
+                        d.update(tr, np.array(op[2], dtype='uint8'))
+                    else:
+                        d.run(scared.Container(estraces.read_ths_from_ram(samples=tr, plaintext=np.array(op[2], dtype='uint8'))))
+                else:
+                    obj = self._bad_obj(op[1]) if op[0] == 'badtype' else make_edges_obj(op[1], op[2])
+                    try:
+                        d.bin_edges = obj
+                        refused.append(False)
+                        excs.append(None)
+                    except (ValueError, TypeError) as e:
+                        refused.append(True)
+                        excs.append(type(e).__name__)
+            if case['mode'] == 'dist':
+                res = np.asarray(d.compute())
+            else:
+                res = np.asarray(d.results)
+                res = res.reshape(-1, res.shape[-1])
+            acc = np.asarray(d.accumulators)
+        return {'acc': [[[[int(v) for v in c] for c in b] for b in s] for s in acc.tolist()],
+                'acc_integral': bool(np.all(acc == np.round(acc))), 'res': [[float(v) for v in row] for row in res.tolist()],
+                'refused': refused, 'excs': excs, 'edges': [float(v) for v in np.asarray(d.bin_edges, dtype='float64')],
+                'bins_number': int(d.bins_number), 'processed': int(d.processed_traces)}
+
+    def coq(self, case, obs):
+        G = case['guesses']
+        ops = []
+        ntot = 0
+        ns = nw = 0
+        for op in case['ops']:
+            if op[0] == 'update':
+                rows = []
+                for tr, dr in zip(op[1], op[2]):
+                    fd = [((v ^ g) & 7) for g in range(G) for v in dr] if case['mode'] == 'attack' else dr
+                    rows.append('(%s, %s)' % (C.coq_list(tr, F), C.coq_list(fd, C.coq_z)))
+                    ns, nw = len(tr), len(fd)
+                ntot += len(rows)
+                ops.append('HUpdate %s' % C.coq_list(rows))
+            elif op[0] == 'badtype':
+                ops.append('HSetBadType')
+            else:
+                ops.append('HSet %s' % C.coq_list(op[1], F))
+        lnt = [math.log(k) for k in range(1, ntot + 1)]
+        if 'raised' in obs:
+            refused, edges, bins, acc, res = '[]', '[]', '0%nat', '[]', '[]'
+        else:
+            refused = C.coq_list(obs['refused'], C.coq_bool)
+            edges = C.coq_list(obs['edges'], F)
+            bins = C.coq_nat(obs['bins_number'])
+            acc = C.coq_list(obs['acc'], lambda s: C.coq_list(s, lambda b: C.coq_list(b, lambda c: C.coq_list(c, C.coq_z))))
+            res = C.coq_list(obs['res'], lambda r: C.coq_list(r, F))
+        return ('{| hc_init := %s; hc_bins := %s; hc_parts := %s; hc_ops := %s; hc_ns := %s; hc_nw := %s; hc_ln := %s; hc_f32 := false; '
+                'hc_obs_refused := %s; hc_obs_edges := %s; hc_obs_bins := %s; hc_obs_acc := %s; hc_obs_res := %s |}' % (
+                    C.coq_list(case['init_edges'], F), C.coq_nat(case['bins_number']), C.coq_list(case['parts'], C.coq_z),
+                    C.coq_list(ops), C.coq_nat(ns), C.coq_nat(nw), C.coq_list(lnt, F), refused, edges, bins, acc, res))
+
+    def oracle(self, case, obs):
+        if 'raised' in obs:
+            return f'MIA history ({case["mode"]}) raised {obs["raised"]}: {obs["msg"]}'
+        if not obs['acc_integral']:
+            return 'accumulators hold non-integral counts'
+        sets = [op for op in case['ops'] if op[0] != 'update']
+        for op, exc in zip(sets, obs['excs']):
+            if op[0] == 'badtype' and exc != 'TypeError':
+                return f'bin_edges = {op[1]} did not raise TypeError'
+            if op[0] == 'set' and exc == 'TypeError':
+                return 'a list / ndarray of edges was refused with TypeError'
+        if not case['init_edges'] and not any(op[0] == 'set' and r is False for op, r in zip(sets, obs['refused'])):
+            first = next(op for op in case['ops'] if op[0] == 'update')
+            flat = [x for r in first[1] for x in r]
+            if len(obs['edges']) != case['bins_number'] + 1:
+                return f'automatic bin edges: {len(obs["edges"]) - 1} bins instead of the configured bins_number {case["bins_number"]}'
+            if obs['edges'][0] != min(flat) or obs['edges'][-1] != max(flat):
+                return 'automatic bin edges do not span [min, max] of the first batch'
+        return None
+
+    def nontrivial(self, case, obs):
+        return bool(obs.get('refused')) and any(obs['refused']) and HistKind.nontrivial(self, case, obs)
+
+    def features(self, case, obs):
+        ops = case['ops']
+        first_up = next(i for i, op in enumerate(ops) if op[0] == 'update')
+        last_up = max(i for i, op in enumerate(ops) if op[0] == 'update')
+        pos = set()
+        flags = iter(obs.get('refused', []))
+        for i, op in enumerate(ops):
+            if op[0] != 'update' and next(flags, False):
+                pos.add('before_first_update' if i < first_up else 'before_compute' if i > last_up else 'between_updates')
+        return {'mode': case['mode'], 'auto': not case['init_edges'], 'families': '+'.join(case['families']),
+                'positions': '+'.join(sorted(pos)), 'refused_observed': sum(1 for r in obs.get('refused', []) if r)}
+
+    def tags(self, case, obs):
+        return ['mia_history', 'mia_history_' + case['mode']] + (['mia_' + obs['raised']] if 'raised' in obs else [])
+
+    def sample(self, case, obs):
+        c = {k: case[k] for k in ('mode', 'init_edges', 'bins_number', 'parts', 'precision', 'tdtype', 'families')}
+        c['ops'] = [op if op[0] != 'update' else ['update', op[1][:3], op[2][:3]] for op in case['ops']]
+        return {'case': c, 'observed': {k: obs.get(k) for k in ('refused', 'excs', 'edges', 'bins_number', 'res')}}
+
+    def shrink(self, case):
+        ops = case['ops']
+        ups = [i for i, op in enumerate(ops) if op[0] == 'update']
+        sets = [i for i, op in enumerate(ops) if op[0] != 'update']
+        for i in sets:                                   # drop one assignment
+            yield dict(case, ops=ops[:i] + ops[i + 1:])
+        if len(ups) > 1:
+            for i in ups[1:]:                            # drop a later update (the first one defines automatic edges)
+                yield dict(case, ops=ops[:i] + ops[i + 1:])
+        S = len(ops[ups[0]][1][0])
+        if S > 1:
+            for s in range(S):
+                yield dict(case, ops=[op if op[0] != 'update' else ['update', [[r[s]] for r in op[1]], op[2]] for op in ops])
+        W = len(ops[ups[0]][2][0])
+        if W > 1:
+            for w in range(W):
+                yield dict(case, ops=[op if op[0] != 'update' else ['update', op[1], [[r[w]] for r in op[2]]] for op in ops])
+
+
+KINDS = [HistKind(), EdgesKind(), LargeKind(), HistoryKind()]
 
 
 def _type_refusals():
